@@ -7,7 +7,8 @@ the two handlers), the RDAC step dictionary, the P2P configuration.
 
 `reset <p2p_port> <rdac_port>` · `p2p <addr> <hex> <snmpFails 0|1>` · `setout <addr> <val>` ·
 `envpatch <addr> <key> <val>` ·
-`rdac <addr> <hex> <snmpFails 0|1>` · `dump`.   `<addr>` = `<ip code points joined by .>:<port>`.
+`rdac <addr> <hex> <snmpFails 0|1>` · `dump`.   `<addr>` = `<ip code points joined by .>:<port>`, for a
+longer peer tuple (AF_INET6: flowinfo, scope id) `<ip>:<port>:<n>:<n>…`.
 -/
 
 namespace Dmr.Driver.Handshake
@@ -21,10 +22,11 @@ def dinit : DState := { cfg := Cfg.default, st := Rdac.init }
 
 def parseAddr (s : String) : Option Addr :=
   match s.splitOn ":" with
-  | [ip, port] => do
+  | ip :: port :: ext => do
     let ip ← parseCps ip
     let port ← port.toNat?
-    pure { ip := ip, port := port }
+    let ext ← ext.mapM String.toNat?
+    pure { ip := ip, port := port, ext := ext }
   | _ => none
 
 def addrToString (a : Addr) : String := valToString a.val
@@ -33,7 +35,7 @@ def listToString (l : List String) : String := if l.isEmpty then "-" else ",".in
 
 def p2pErr : P2p.Err → String
   | .valueError => "ValueError" | .indexError => "IndexError" | .overflowError => "OverflowError"
-  | .snmpError => "SnmpStubError"
+  | .snmpError => "SnmpStubError" | .typeError => "TypeError"
 
 def rdacErr : RErr → String
   | .unicodeDecodeError => "UnicodeDecodeError" | .indexError => "IndexError"
